@@ -8,11 +8,19 @@ from .. import common, walker
 from autobean_refactor import models
 
 D = decimal.Decimal
+
+
+class _Units(int):
+    """An int that is not exactly int (an IntEnum member, a counter type, a bool): still a number for every operator."""
+
+
+class _Money(decimal.Decimal):
+    """Likewise for Decimal."""
 CASES = {'quick': 4000, 'thorough': 120000}
 SMALL_BLOCKS = 4      # runner: every 4th case keeps its stores in 2..10-token blocks
 GATES = {
     'quick': {'cases_in_small_blocks': 50, 'evaluations': 12000, 'parsed_values': 6000, 'applications': 5000, 'attached_operand_applications': 600,
-              'forms_seen': 11, 'form:inplace_self': 150, 'attribute_form_inplace': 40, 'leaf_edits': 500, 'zero_constant_operands': 200, 'independence_checks': 3000, 'chains_ge3': 400, 'results_needing_parens': 300},
+              'forms_seen': 11, 'form:inplace_self': 150, 'attribute_form_inplace': 40, 'leaf_edits': 500, 'whole_value_assignments': 250, 'whole_value_assignments_int': 100, 'subclass_constant_operands': 300, 'zero_constant_operands': 200, 'independence_checks': 3000, 'chains_ge3': 400, 'results_needing_parens': 300},
     'thorough': {'evaluations': 400000, 'forms_seen': 10},
 }
 RULE = ('case = two random expression texts (depth <=4, arbitrary spacing, redundant parentheses, thousands separators) parsed as '
@@ -213,6 +221,30 @@ def run_case(col, r, idx):
                     col.violation('leaf-edit-not-in-document', 'the document does not contain the edited expression text', {'texts': texts, 'chain': chain})
                     return
                 acc = Operand(acc.expr, want, acc.kind, acc.doc)
+        if r.random() < 0.08:
+            # value writing replaces the whole expression (docs/special/numbers.md: `expr.value = 8`, a plain int)
+            newv = r.choice([8, 8, -3, 0, _Units(6), D('2.50'), D('-0.125'), _Money('0.25'), D('1234567891.12345678901234567890')])
+            col.ev()
+            col.count('whole_value_assignments')
+            if type(newv) is not D:
+                col.count('whole_value_assignments_int')
+            try:
+                acc.expr.value = newv
+                got = acc.expr.value
+                txt = common.pr(acc.expr)
+                want = ev(txt)
+            except Exception as e:
+                col.violation(f'value-assignment-raised:{type(newv).__name__}', f'expr.value = {newv!r} raised {type(e).__name__}: {e}',
+                              {'texts': texts, 'chain': chain})
+                return
+            if got != D(newv) or want != D(newv):
+                col.violation('value-assignment', f'after expr.value = {newv!r} the expression prints {txt!r} (= {want}) and .value is {got}',
+                              {'texts': texts, 'chain': chain, 'printed': txt})
+                return
+            if acc.doc is not None and txt not in common.pr(acc.doc):
+                col.violation('value-assignment-not-in-document', 'the document does not contain the new expression text', {'texts': texts, 'chain': chain})
+                return
+            acc = Operand(acc.expr, D(newv), acc.kind, acc.doc)
         o = r.choice('+-*/')
         form = r.choice(['plain', 'plain', 'plain', 'rint', 'rdec', 'int', 'dec', 'inplace', 'inplace_num', 'neg', 'pos', 'self', 'inplace_self'])
         ti = r.randrange(3)
@@ -224,18 +256,22 @@ def run_case(col, r, idx):
                     continue
                 exp = OPS[o](acc.value, other.value)
             elif form in ('rint', 'rdec'):
-                c = r.choice([3, 3, 0, 1, -2]) if form == 'rint' else r.choice([D('-2.5'), D('-2.5'), D('0'), D('0.00'), D('1'), D('-1.23456789012345678901234567890123'), D('1234567891.12345678901234567890')])
+                c = r.choice([3, 3, 0, 1, -2, _Units(6), True]) if form == 'rint' else r.choice([_Money('0.25'), D('-2.5'), D('-2.5'), D('0'), D('0.00'), D('1'), D('-1.23456789012345678901234567890123'), D('1234567891.12345678901234567890')])
                 if o == '/' and acc.value == 0:
                     continue
                 if c == 0:
                     col.count('zero_constant_operands')
+                if type(c) not in (int, D):
+                    col.count('subclass_constant_operands')
                 exp = OPS[o](D(c), acc.value)
             elif form in ('int', 'dec', 'inplace_num'):
-                c = r.choice([4, 4, 0, 1, -3]) if form != 'dec' else r.choice([D('0.5'), D('0.5'), D('0'), D('0.00'), D('1.0'), D('-1.23456789012345678901234567890123'), D('1234567891.12345678901234567890')])
+                c = r.choice([4, 4, 0, 1, -3, _Units(6), True]) if form != 'dec' else r.choice([_Money('0.25'), D('0.5'), D('0.5'), D('0'), D('0.00'), D('1.0'), D('-1.23456789012345678901234567890123'), D('1234567891.12345678901234567890')])
                 if o == '/' and c == 0:
                     continue
                 if c == 0:
                     col.count('zero_constant_operands')
+                if type(c) not in (int, D):
+                    col.count('subclass_constant_operands')
                 exp = OPS[o](acc.value, D(c))
             elif form == 'inplace':
                 other = make_operand(col, r, texts[ti], vals[ti])
